@@ -122,6 +122,13 @@ fn lit_value(src: &str) -> Option<String> {
 
 /// Static judgement of an output for a payload with marker `mark` and injected identifier `inj`.
 pub fn judge_static(output: &str, position: &str, payload: &str, mark: &str, inj: &str) -> Vec<Fail> {
+    let fails = judge_static_inner(output, position, payload, mark, inj);
+    // release proc-macro2's per-thread source map (see outscan::scan); no span outlives this call
+    proc_macro2::extra::invalidate_current_thread_spans();
+    fails
+}
+
+fn judge_static_inner(output: &str, position: &str, payload: &str, mark: &str, inj: &str) -> Vec<Fail> {
     let mut fails = vec![];
     if let Err(e) = syn::parse_file(output) {
         fails.push(Fail { sig: format!("output-does-not-parse:{position}"), detail: format!("{e} (line {})", e.span().start().line) });
